@@ -16,7 +16,7 @@ func init() {
 }
 
 var c03Exp = []string{"none", "far-past", "now-1", "now", "now+1", "far", "zero", "neg", "huge", "y9999", "max"}
-var c03Nbf = []string{"unset", "far-past", "now-1", "now", "now+1", "far"}
+var c03Nbf = []string{"unset", "far-past", "now-1", "now", "now+1", "far", "max", "nearmax"}
 
 func relOf(s string) *int {
 	var v int
@@ -69,6 +69,10 @@ func genC03(cfg Config, emit Emit) error {
 					t.Exp, t.ExpRel = &abs, nil
 				}
 				t.NbfRel = relOf(n)
+				if n == "max" || n == "nearmax" { // absolute: the largest second, and 40 years before it
+					t.NbfRel = nil
+					t.Nbf = map[string]int{"max": 1<<63 - 1, "nearmax": 1<<63 - 1 - 40*31536000}[n]
+				}
 				where := "proof"
 				if pos == w.Inv {
 					where = "invocation"
